@@ -125,3 +125,29 @@ CHECKS.update({
             "technique": "TLA+ SQL lexer state machine, parser and tree correspondence (spec/Sql.tla) + TLC validation of recorded translations (spec/Trace_Sql.tla)"},
 })
 NOT_YET = {}
+
+# ---- additions made with VM.tla / Compile.tla (see DESIGN.md section 17) ----------------------------------------------
+VMT = (" The real bytecode and the cfg(rscel_verif) interpreter trace of sampled cases are also validated against the implementation-shaped model "
+       "(spec/VM.tla via spec/Trace_VM.tla): TLC runs the real bytecode under every valuation of up to three variables over {true,false,1,0,'',null,unbound}, "
+       "compares with Eval.tla, and every disagreeing valuation is executed on the real interpreter and judged by Trace_Eval.")
+VMTECH = ("; TLA+ stack-machine model (spec/VM.tla) run by TLC on the real compiler's bytecode under all small valuations, candidates replayed into the real interpreter "
+          "(spec/Trace_VM.tla); step-by-step conformance of the recorded interpreter trace with VM.tla as a diagnostic")
+for k in ("C05", "C07", "C08", "C09", "C12"):
+    CHECKS[k]["text"] += VMT
+    CHECKS[k]["technique"] += VMTECH
+CHECKS["C05"]["text"] += (" Design level: MC_Lazy model-checks that the compilation schemes of spec/Compile.tla executed on spec/VM.tla agree (outcome and call log) with Eval.tla on every tree "
+                          "of a bounded family; Compile.tla itself is compared with the real compiler's output on every literal-free case.")
+CHECKS["C05"]["technique"] += "; exhaustive TLC model check MC_Lazy (Compile.tla on VM.tla vs Eval.tla)"
+CHECKS["C09"]["text"] += (" Clock: every chain of up to three wrappers (call argument, macro body, f-string, list, index, coalesce, ?:, bound function) around now()/timestamp() "
+                          "must keep every live clock call in the emitted code (TLC counts them in all nested blocks) and tick between two executions.")
+CHECKS["C09"]["note"] = "Trusted: rendering of values as literals (checked by C13), TLC, a 3 ms sleep advancing the clock."
+CHECKS["C10"]["text"] += (" The VM's own bounds checks: thousands of instruction sequences no compiler emitted (all small PUSH/JMPC families, random forward-jumping sequences, real programs with one jump "
+                          "pushed past the end) are executed through Program::new + exec and by spec/VM.tla; whenever the model run leaves the block the real run must be an error (spec/Trace_Inject.tla). "
+                          "Executed paths: the recorded interpreter trace must keep the pc inside the block and strictly increasing, with operands present for every instruction (spec/Trace_VM.tla).")
+CHECKS["C10"]["note"] = "Trusted: the structural projection of ByteCode to JSON; the cfg(rscel_verif) tracer records the stack before each instruction."
+CHECKS["C10"]["technique"] += "; TLA+ stack machine (spec/VM.tla) vs real execution of injected bytecode (spec/Trace_Inject.tla); trace invariants over the recorded interpreter steps (spec/Trace_VM.tla)"
+CHECKS["C12"]["text"] += (" Cycles of length 1 and 2 through 16 referencing constructs (all macros, list and map receivers), also under ||, coalesce and has, must end in an error (law attached by the generator); "
+                          "the recorded interpreter trace must show loop iterations sharing one depth count.")
+CHECKS["C01"]["text"] += " Reference cycles through every referencing construct run in child processes on 8 MB and 2 MB stacks and must not die."
+CHECKS["C11"]["text"] += (" Trace law: two executions of one program name under equal recorded programs and equal recorded bindings return equal outcomes, whichever objects hold them "
+                          "(probe histories compile one source into three contexts and bind one map into three binding objects).")
